@@ -14,6 +14,7 @@ import (
 	"google.golang.org/protobuf/proto"
 	"google.golang.org/protobuf/types/known/anypb"
 
+	"github.com/refraction-networking/conjure/internal/verifhook"
 	"github.com/refraction-networking/conjure/pkg/core"
 	"github.com/refraction-networking/conjure/pkg/phantoms"
 	"github.com/refraction-networking/conjure/pkg/station/liveness"
@@ -148,6 +149,7 @@ func (rm *RegistrationManager) ingestRegistration(reg *DecoyRegistration) {
 
 		// Track the received registration, if it is already tracked
 		// it will just update the record
+		verifhook.Yield("ingest:dup-before-track")
 		err := rm.TrackRegistration(reg)
 		if err != nil {
 			logger.Errorln("error tracking registration: ", err)
@@ -161,12 +163,14 @@ func (rm *RegistrationManager) ingestRegistration(reg *DecoyRegistration) {
 	logger.Debugf("New registration: %s %v\n", reg.IDString(), reg.String())
 
 	// Track the received registration
+	verifhook.Yield("ingest:new-before-track")
 	err := rm.TrackRegistration(reg)
 	if err != nil {
 		logger.Errorln("error tracking registration: ", err)
 		Stat().AddErrReg()
 		rm.AddErrReg()
 	}
+	verifhook.Yield("ingest:after-track")
 
 	// If registration is trying to connect to a covert address that
 	// is blocklisted consider registration INVALID and continue
@@ -230,6 +234,7 @@ func (rm *RegistrationManager) ingestRegistration(reg *DecoyRegistration) {
 
 	}
 	// validate the registration
+	verifhook.Yield("ingest:before-add")
 	rm.AddRegistration(reg)
 	logger.Debugf("Adding registration %v\n", reg.IDString())
 	Stat().AddReg(reg.DecoyListVersion, reg.RegistrationSource)
